@@ -739,8 +739,12 @@ impl LZDiff {
     }
 
     /// Check if byte is a literal
+    ///
+    /// Literals are `b'A' + code`. The symbol codes produced by CNV_NUM are 0..=15 (IUPAC)
+    /// and 30 (any other letter), so the literal range must reach `b'A' + 30`; with the old
+    /// bound of 20 a sequence containing e.g. 'E' encoded fine but panicked on decode.
     fn is_literal(&self, c: u8) -> bool {
-        (b'A'..=b'A' + 20).contains(&c) || c == b'!'
+        (b'A'..=b'A' + 30).contains(&c) || c == b'!'
     }
 
     /// Decode a literal
